@@ -331,3 +331,81 @@ func (r *Run) ContextReads(regionName string, reg map[*ssa.Function]*ssa.Functio
 		r.viol("K1-context-read", h.Fn, h.What, fmt.Sprintf("%s reads the node's current frontier (%s:%d) inside the %s region: the outcome depends on how far this node's chain has advanced when it evaluates the block, not on the ledger the block acknowledges; reached via %s", h.Fn, h.File, h.Line, regionName, chain), why, h.File, h.Line)
 	}
 }
+
+// cacheInventory lists every struct field and package-level variable, in the given module packages,
+// that can hold derived or memoised state across calls: maps, LRU caches, sync.Map (directly or
+// behind a pointer). Each is a place where a result computed from one ledger state can be served
+// for another.
+func (r *Run) cacheInventory(pkgs []string) []lintHit {
+	var hits []lintHit
+	var isCacheType func(t types.Type) string
+	isCacheType = func(t types.Type) string {
+		if pt, ok := t.Underlying().(*types.Pointer); ok {
+			t = pt.Elem()
+		}
+		switch x := t.Underlying().(type) {
+		case *types.Slice:
+			if k := isCacheType(x.Elem()); k != "" && k != "map" {
+				return "[]" + k
+			}
+		case *types.Array:
+			if k := isCacheType(x.Elem()); k != "" && k != "map" {
+				return "[]" + k
+			}
+		}
+		if nt, ok := t.(*types.Named); ok && nt.Obj().Pkg() != nil {
+			switch nt.Obj().Pkg().Path() + "." + nt.Obj().Name() {
+			case "github.com/hashicorp/golang-lru.Cache", "github.com/hashicorp/golang-lru.ARCCache", "github.com/hashicorp/golang-lru.TwoQueueCache", "sync.Map":
+				return nt.Obj().Name()
+			}
+		}
+		if _, ok := t.Underlying().(*types.Map); ok {
+			return "map"
+		}
+		return ""
+	}
+	for _, rel := range pkgs {
+		pk := r.P.Pkg(rel)
+		if pk == nil {
+			r.viol("unresolved-anchor", "", "package "+rel, "package not loaded", "", "", 0)
+			continue
+		}
+		scope := pk.Types.Scope()
+		for _, name := range scope.Names() {
+			switch o := scope.Lookup(name).(type) {
+			case *types.Var:
+				if k := isCacheType(o.Type()); k != "" {
+					f, l := r.P.Pos(o.Pos())
+					hits = append(hits, lintHit{Fn: rel + "." + name, What: "state:" + k + " (package variable)", File: f, Line: l})
+				}
+			case *types.TypeName:
+				st, ok := o.Type().Underlying().(*types.Struct)
+				if !ok {
+					continue
+				}
+				for i := 0; i < st.NumFields(); i++ {
+					fd := st.Field(i)
+					if k := isCacheType(fd.Type()); k != "" {
+						f, l := r.P.Pos(fd.Pos())
+						hits = append(hits, lintHit{Fn: rel + "." + name + "." + fd.Name(), What: "state:" + k, File: f, Line: l})
+					}
+				}
+			}
+		}
+	}
+	sort.Slice(hits, func(i, j int) bool { return hits[i].Fn < hits[j].Fn })
+	return hits
+}
+
+// CacheInventory: every cache-capable field/variable of the listed packages is triaged with the
+// mechanism that keeps it consistent with the ledger (content-addressed key, validate-on-read,
+// purge-on-rewind, immutable after construction, per-call scratch, not ledger-derived).
+func (r *Run) CacheInventory(pkgs []string, table map[string]string, why string) {
+	for _, h := range r.cacheInventory(pkgs) {
+		if reason, ok := table[h.Fn]; ok {
+			r.pass("K10-cache-inventory", h.Fn, h.What, "triaged: "+reason, why, h.File, h.Line)
+			continue
+		}
+		r.viol("K10-cache-inventory", h.Fn, h.What, fmt.Sprintf("%s (%s:%d) can memoise results across calls and has no recorded invalidation mechanism: a value computed from one ledger state (branch, height, view) can be served for another", h.Fn, h.File, h.Line), why, h.File, h.Line)
+	}
+}
